@@ -357,11 +357,69 @@ fn part_build(min: usize, out: &mut JobOut) {
     }
 }
 
+/// A minimal recording builder for f32 data: remembers what its `build` was given.
+struct Rec32 {
+    seen: Arc<Mutex<Option<(usize, bool)>>>,
+}
+struct Rec32Strat;
+impl<Sd, Sx, D> Interp1DStrategyBuilder<Sd, Sx, D> for Rec32
+where
+    Sd: Data<Elem = f32>,
+    Sx: Data<Elem = f32>,
+    D: Dimension + RemoveAxis,
+{
+    const MINIMUM_DATA_LENGHT: usize = 2;
+    type FinishedStrat = Rec32Strat;
+    fn build<Sx2>(self, x: &ArrayBase<Sx2, Ix1>, _data: &ArrayBase<Sd, D>) -> Result<Rec32Strat, BuilderError>
+    where
+        Sx2: Data<Elem = f32>,
+    {
+        let inc = x.iter().zip(x.iter().skip(1)).all(|(a, b)| a < b);
+        *self.seen.lock().unwrap() = Some((x.len(), inc));
+        Ok(Rec32Strat)
+    }
+}
+impl<Sd, Sx, D> Interp1DStrategy<Sd, Sx, D> for Rec32Strat
+where
+    Sd: Data<Elem = f32>,
+    Sx: Data<Elem = f32>,
+    D: Dimension + RemoveAxis,
+{
+    fn interp_into(&self, _ip: &Interp1D<Sd, Sx, D, Self>, _target: ArrayViewMut<f32, D::Smaller>, _x: f32) -> Result<(), InterpolateError> {
+        Ok(())
+    }
+}
+
+/// the default index axis of 2^24 + 2 f32 values is not strictly increasing (2^24 + 1 rounds to
+/// 2^24): the strategy builder must not be invoked with it
+fn part_f32_long_default_axis(out: &mut JobOut) {
+    let n = (1usize << 24) + 2;
+    let seen = Arc::new(Mutex::new(None));
+    let d = Array1::<f32>::zeros(n);
+    let s2 = seen.clone();
+    let r = catch(|| Interp1DBuilder::new(d.view()).strategy(Rec32 { seen: s2 }).build().map(|_| ()));
+    out.evals += 1;
+    out.nontrivial += 1;
+    out.transitions += 1;
+    let got = *seen.lock().unwrap();
+    out.outcome(format!("f32-long-default-axis:invoked={}", got.is_some()));
+    if let Some((len, inc)) = got {
+        if !inc {
+            out.violate(
+                "build1d:f32:default-axis-2^24+2".to_string(),
+                format!("the strategy builder was invoked with the default index axis of {len} f32 values, which is not strictly increasing (x[2^24] == x[2^24+1]); build() returned {:?}", r.as_ref().map(|r| r.as_ref().map_err(|e| e.to_string()))),
+                Json::str("Interp1DBuilder::new(Array1::<f32>::zeros(2^24 + 2)).strategy(recorder).build()"),
+            );
+        }
+    }
+}
+
 // ------------------------------------------------------------------------------------------
 // part 2: what does interp_into of the strategy see? (every entry point, every fault index)
 
 fn query_nd(shape: &[usize]) -> ArrayD<f64> {
-    let special = [0.5, -3.25, f64::NAN, 1e300, -0.0, f64::INFINITY, 2.0, 7.125];
+    // consecutive equal values (also NaN, NaN and 0.0, -0.0): every one must reach the strategy
+    let special = [0.5, 0.5, -3.25, f64::NAN, f64::NAN, 1e300, 0.0, -0.0, f64::INFINITY, 2.0, 2.0, 7.125];
     let mut i = 0;
     ArrayD::from_shape_fn(IxDyn(shape), |_| {
         i += 1;
@@ -685,22 +743,24 @@ fn body(ctx: &Ctx) -> (Summary, Meta) {
         Build(usize),
         Calls,
         Access,
+        F32Long,
     }
-    let parts = [Part::Build(0), Part::Build(1), Part::Build(2), Part::Build(3), Part::Build(4), Part::Calls, Part::Access];
+    let parts = [Part::Build(0), Part::Build(1), Part::Build(2), Part::Build(3), Part::Build(4), Part::Calls, Part::Access, Part::F32Long];
     let sum = run_jobs(ctx, "custom-strategies", &parts, |p| format!("{p:?}"), |p| {
         let mut out = JobOut::default();
         match p {
             Part::Build(m) => part_build(*m, &mut out),
             Part::Calls => part_calls(&mut out),
             Part::Access => part_accessors(&mut out),
+            Part::F32Long => part_f32_long_default_axis(&mut out),
         }
         out.sample = Some(Json::str(&format!("{p:?}")));
         out
     });
     let _ = (Ix0::default(), ctx.quick());
     let meta = Meta {
-        rule: "recording strategy builders with declared minimum 0..4 for Interp1D and Interp2D: (1) on the decision-table inputs (data ranks static/dynamic incl. rank 0, lengths 0..min+2, axis default / n-1 / n / n+1 with tie, swap, NaN at every position; 2-D x-factors x y-factors) the strategy's build may only be entered when axes are strictly increasing, have the data's length and the length reaches the declared minimum, and its error must reach the caller unchanged; (2) for 18 static/dynamic instantiations x data shapes x query shapes (ranks 0..3, empty) x {interp, interp_into, interp_array, interp_array_into, interp_scalar} the strategy must see exactly the query values (bit patterns incl. NaN, -0, inf, 1e300) in logical order with a target of shape data.shape[k..]; a failure is injected at every call index of every batch and must stop the batch and reach the caller verbatim; (3) index_point(i) for every i and is_in_range on the range-end alphabet. Non-trivial = a case in which the strategy is entered or an accessor is compared.".into(),
-        bounds: format!("7 parts (5 declared minima + calls + accessors); tier {}", ctx.tier.name()),
+        rule: "recording strategy builders with declared minimum 0..4 for Interp1D and Interp2D: (1) on the decision-table inputs (data ranks static/dynamic incl. rank 0, lengths 0..min+2, axis default / n-1 / n / n+1 with tie, swap, NaN at every position; 2-D x-factors x y-factors) the strategy's build may only be entered when axes are strictly increasing, have the data's length and the length reaches the declared minimum, and its error must reach the caller unchanged; (2) for 18 static/dynamic instantiations x data shapes x query shapes (ranks 0..3, empty) x {interp, interp_into, interp_array, interp_array_into, interp_scalar} the strategy must see exactly the query values (bit patterns incl. NaN, -0, inf, 1e300) in logical order with a target of shape data.shape[k..]; a failure is injected at every call index of every batch and must stop the batch and reach the caller verbatim; (3) index_point(i) for every i and is_in_range on the range-end alphabet; (4) the default index axis of 2^24+2 f32 values (not strictly increasing after the cast) must not reach the strategy builder. Query batches contain consecutive equal values (incl. NaN, NaN and 0.0, -0.0). Non-trivial = a case in which the strategy is entered or an accessor is compared.".into(),
+        bounds: format!("8 parts (5 declared minima + calls + accessors + long f32 default axis); tier {}", ctx.tier.name()),
         assumptions: vec!["queries are handed to the strategy in the logical order of the query array".into()],
         extra: vec![],
     };
